@@ -100,8 +100,19 @@ impl Block {
         let capstone: usize = 1/*tag 11*/ + 4/*fixed32 capstone*/;
         let footer_body: usize = num_restarts * 4;
         let footer_head: usize = 1/*tag 10*/ + v64::from(footer_body).pack_sz();
-        let restarts_idx = bytes.len() - capstone - footer_body;
-        let restarts_boundary = restarts_idx - footer_head;
+        // The restart count comes from the block itself:  it must leave room for what it counts.
+        let restarts_idx = bytes
+            .len()
+            .checked_sub(capstone)
+            .and_then(|x| x.checked_sub(footer_body));
+        let restarts_boundary = restarts_idx.and_then(|x| x.checked_sub(footer_head));
+        let (Some(restarts_idx), Some(restarts_boundary)) = (restarts_idx, restarts_boundary)
+        else {
+            let footer = capstone
+                .saturating_add(footer_body)
+                .saturating_add(footer_head);
+            return Err(block_too_small(bytes.len(), footer));
+        };
         // Reader.
         let block = Block {
             bytes,
